@@ -241,7 +241,12 @@ def _tls(ctx: Context, tree: str, N: Names) -> None:
                     alts = ctx.prov.expand(alpn_calls[0].args[0], f, alpn_calls[0])
                     vals[h2] = [peval(a, {"self._http2": h2}) for a in alts]
             ok = vals.get(True) == [["http/1.1", "h2"]] and vals.get(False) == [["http/1.1"]]
-            ctx_same = kw.get("ssl_context") is not None and norm(alpn_calls[0].func.value) in [x.split("(")[0] for x in ["ssl_context"]]
+            # the context that is configured is the context that is handed to the handshake (same variable)
+            recv = norm(alpn_calls[0].func.value)
+            handed = {norm(v_) for d_ in ast.walk(f.node) if isinstance(d_, ast.Dict) for k_, v_ in zip(d_.keys, d_.values)
+                      if isinstance(k_, ast.Constant) and k_.value == "ssl_context"} | \
+                     {norm(k_.value) for k_ in s.node.keywords if k_.arg == "ssl_context"}
+            ctx_same = kw.get("ssl_context") is not None and handed == {recv}
             ok = ok and ctx_same
         rep.ob("C10.R5", fkey(tree, f, "alpn"), ok, where(f, alpn_calls[0] if alpn_calls else None), f"ALPN offered with http2 on/off: {vals}")
         # the (possibly shared) context is configured immediately before the handshake: nothing that can block or suspend
